@@ -54,7 +54,7 @@ def programs(depth):
                 P += ["%s/a%sb" % (r, o1), "(%s/a)%sb" % (r, o1)]
             for r in ("+", "*"):
                 P += ["%s\\a%sb" % (r, o1)]
-        P += ["(a^2)+b", "(a%2)-b", "+/a*a", "(+/a)%#a"]
+        P += ["(a^2)+b", "(a%2)-b", "+/a*a", "(+/a)%#a", "b%+/a", "3%(*/a)", "(+/a)%(|/a)"]
     if depth >= 3:
         for o1 in LIN:
             for o2 in LIN + CMP:
@@ -82,6 +82,20 @@ def _run(k, compiled, text):
 
 def _reset(k):
     k._parse_cache.clear(); k._compiled_cache.clear()
+
+
+def _position(form, text):
+    """(definition or None, program) placing the expression in one of the evaluation positions the property names"""
+    if form == "top":
+        return None, text
+    if form in ("fn", "assign"):
+        return "f::{%s}" % text, "f()"                       # the whole function body
+    if form == "opnd":
+        return "f::{0,(%s)}" % text, "f()"                   # operand of a non-compilable verb: the node survives between calls
+    if form == "param":
+        body = text.replace("a", "x").replace("b", "y")
+        return "f::{0,(%s)}" % body, "f(a;b)"                # over lambda parameters
+    raise RuntimeError(form)
 
 
 def _mk(kind, v, s, t):
@@ -121,13 +135,13 @@ def _concretize(text, v, s, t, kinds):
     real = "%" in text or "^" in text or any(k in ("f", "g", "fv") for k in kinds)
     if not real:
         return v, s, t
-    D = [-2, 1, 4]
+    D = [-2, 0, 1, 4]              # 0 included: a zero divisor / zero base is where the two paths are most likely to part
     use_v = any(k in ("v", "w", "m") for k in kinds)
     use_s = any(k in ("i", "nest") for k in kinds)
     use_t = any(k in ("j", "w", "nest") for k in kinds)
-    v = [pick(D, x % 3) for x in v] if use_v else [1 for _ in v]
-    s = pick(D, s % 3) if use_s else 1
-    t = pick(D, t % 3) if use_t else 1
+    v = [pick(D, x % 4) for x in v] if use_v else [1 for _ in v]
+    s = pick(D, s % 4) if use_s else 1
+    t = pick(D, t % 4) if use_t else 1
     return v, s, t
 
 
@@ -154,10 +168,13 @@ def equiv(v: List[int], s: int, t: int, pi: int) -> bool:
             _reset(k)
             k['a'] = _mk(ka, v, s, t)
             k['b'] = _mk(kb, v, s, t)
-        rc = _run(KC, True, text)
-        ri = _run(KI, False, text)
+        d, prog = _position(CFG.get("form", "top"), text)
+        if d is not None:
+            _run(KC, True, d); _run(KI, False, d)
+        rc = _run(KC, True, prog)
+        ri = _run(KI, False, prog)
         # a second evaluation of the same text (warm caches) must not differ either
-        rc2 = _run(KC, True, text)
+        rc2 = _run(KC, True, prog)
     except Exception as e:
         if type(e).__name__ == "OutsideModel":
             cut(str(e)[:60]); return True
@@ -189,9 +206,9 @@ def rebinding(v: List[int], s: int, t: int, pi: int) -> bool:
             _reset(k)
             k['b'] = _mk(kb, v, s, t)
             k['a'] = _mk(k1, v, s, t)
-            prog = text if form == "top" else "f()"
-            if form != "top":
-                _run(k, comp, "f::{%s}" % text)
+            d, prog = _position(form, text)
+            if d is not None:
+                _run(k, comp, d)
             r1 = _run(k, comp, prog)
             if form == "assign":
                 k['tmp'] = _mk(k2, v, s, t)
@@ -242,10 +259,17 @@ def obligations(tier):
         for gi, grp in enumerate(_chunks(sel, 12 if q else 8)):
             obs.append({"name": "equiv a=%s b=%s group %d (%s ... %s)" % (ka, kb, gi, grp[0], grp[-1]), "fn": "equiv",
                         "cfg": {"progs": grp, "a": ka, "b": kb, "n": n}, "timeout": 300 if q else 1500})
+    # evaluation positions other than the top level (function body operand, lambda parameters)
+    pp = ["a+b", "a%b", "a^2", "+/a", "+\\a", "*/a", "(+/a)%#a", "b%+/a", "-a", "a=b"] if q else progs
+    for (ka, kb) in [("i", "j"), ("v", "j"), ("m", "j"), ("e", "j"), ("g", "j"), ("fv", "j")]:
+        for form in ("opnd", "param"):
+            for gi, grp in enumerate(_chunks(pp, 10)):
+                obs.append({"name": "equiv position=%s a=%s b=%s group %d" % (form, ka, kb, gi), "fn": "equiv",
+                            "cfg": {"progs": grp, "a": ka, "b": kb, "n": n, "form": form}, "timeout": 300 if q else 1500})
     hist = [("i", "v"), ("v", "i"), ("v", "m"), ("i", "f"), ("v", "str"), ("v", "e"), ("i", "nest"), ("m", "v"), ("f", "i")]
-    hp = ["a+b", "a*2", "a=b", "-a", "+/a", "*\\a", "|/a", "(a+b)*a", "+/a*b"] if q else progs[:60]
+    hp = ["a+b", "a*2", "a=b", "-a", "+/a", "*\\a", "+\\a", "|/a", "(a+b)*a", "+/a*b"] if q else progs[:60]
     for (k1, k2) in hist:
-        for form in (("top", "fn") if q else ("top", "fn", "assign")):
+        for form in (("top", "fn", "opnd", "param") if q else ("top", "fn", "assign", "opnd", "param")):
             sel = [p for p in hp if not (kf.is_open("C05/" + finding_class(p, k1, "j")) or kf.is_open("C05/" + finding_class(p, k2, "j")))]
             for gi, grp in enumerate(_chunks(sel, 9)):
                 obs.append({"name": "rebinding a:%s->%s %s group %d" % (k1, k2, form, gi), "fn": "rebinding",
